@@ -4,14 +4,19 @@ import (
 	"github.com/grafana/cog/internal/ast"
 )
 
+type removeIntersectionsKey struct {
+	pkg  string
+	name string
+}
+
 type RemoveIntersections struct {
-	objectsToRemove map[string]ast.Object
-	arraysToFix     map[string]ast.Object
+	objectsToRemove map[removeIntersectionsKey]ast.Object
+	arraysToFix     map[removeIntersectionsKey]ast.Object
 }
 
 func (r RemoveIntersections) Process(schemas []*ast.Schema) ([]*ast.Schema, error) {
-	r.objectsToRemove = make(map[string]ast.Object)
-	r.arraysToFix = make(map[string]ast.Object)
+	r.objectsToRemove = make(map[removeIntersectionsKey]ast.Object)
+	r.arraysToFix = make(map[removeIntersectionsKey]ast.Object)
 	visitor := Visitor{
 		OnSchema: r.processSchema,
 		OnObject: r.processObject,
@@ -50,7 +55,11 @@ func (r RemoveIntersections) processSchema(v *Visitor, schema *ast.Schema) (*ast
 	}
 
 	for toRemove := range r.objectsToRemove {
-		schema.Objects.Remove(toRemove)
+		if toRemove.pkg != schema.Package {
+			continue
+		}
+
+		schema.Objects.Remove(toRemove.name)
 	}
 
 	return schema, nil
@@ -73,13 +82,13 @@ func (r RemoveIntersections) processObject(_ *Visitor, schema *ast.Schema, objec
 			newObject.Type.Hints[hint] = val
 		}
 
-		r.objectsToRemove[locatedObject.Name] = object
+		r.objectsToRemove[removeIntersectionsKey{pkg: schema.Package, name: locatedObject.Name}] = object
 		return newObject, nil
 	}
 
 	if locatedObject.Type.IsArray() {
-		r.objectsToRemove[object.Name] = object
-		r.arraysToFix[object.Name] = locatedObject
+		r.objectsToRemove[removeIntersectionsKey{pkg: schema.Package, name: object.Name}] = object
+		r.arraysToFix[removeIntersectionsKey{pkg: schema.Package, name: object.Name}] = locatedObject
 	}
 
 	// TODO: Check if a reference extends from a Map if necessary
@@ -91,12 +100,13 @@ func (r RemoveIntersections) processStruct(_ *Visitor, _ *ast.Schema, def ast.Ty
 	str := def.AsStruct()
 	for i, field := range str.Fields {
 		if field.Type.IsRef() {
-			if obj, ok := r.objectsToRemove[field.Type.AsRef().ReferredType]; ok {
+			key := removeIntersectionsKey{pkg: field.Type.AsRef().ReferredPkg, name: field.Type.AsRef().ReferredType}
+			if obj, ok := r.objectsToRemove[key]; ok {
 				def.AsStruct().Fields[i] = ast.NewStructField(field.Name, ast.NewRef(obj.SelfRef.ReferredPkg, obj.SelfRef.ReferredType), ast.Comments(obj.Comments))
 				def.AsStruct().Fields[i].Required = field.Required
 				def.AsStruct().Fields[i].Type.Nullable = field.Type.Nullable
 			}
-			if obj, ok := r.arraysToFix[field.Type.AsRef().ReferredType]; ok {
+			if obj, ok := r.arraysToFix[key]; ok {
 				def.AsStruct().Fields[i] = ast.NewStructField(field.Name, ast.NewArray(obj.Type.AsArray().ValueType), ast.Comments(obj.Comments))
 				def.AsStruct().Fields[i].Required = field.Required
 				def.AsStruct().Fields[i].Type.Nullable = field.Type.Nullable
